@@ -1058,6 +1058,9 @@ class BitView:
 
 
 def dot(it, a, b):
+    from . import matalg
+    if isinstance(a, matalg.Mat) or isinstance(b, matalg.Mat) or getattr(a, "mat", None) is not None or getattr(b, "mat", None) is not None:
+        return matalg.dot(it, a, b)
     A, B = as_arr(it, a), as_arr(it, b)
     sa, sb = A.snapshot(), B.snapshot()
     if A.ndim == 2 and B.ndim == 1:
@@ -1615,14 +1618,25 @@ def _fliplr(it, a):
                   lambda s: (True, [s[0], r_sub(r_sub(n, 1), s[1])] + list(s[2:])))
 
 
-@ext("numpy.identity")
+@ext("numpy.identity", "numpy.eye")
 def _identity(it, n, **kw):
     n = as_dim(n)
-    return Arr([n, n], lambda idx: ite(cmp("==", idx[0], idx[1]), 1, 0), "float")
+    a = Arr([n, n], lambda idx: ite(cmp("==", idx[0], idx[1]), 1, 0), "float")
+    a.is_identity = True
+    return a
 
 
 @ext("numpy.fill_diagonal")
 def _fill_diagonal(it, a, v):
+    from . import matalg
+    if isinstance(v, matalg.SvdValues):
+        if not v.root:
+            raise Unsupported("singular values placed on a diagonal without sqrt")
+        if not (isinstance(a, Arr) and a.root is None and a.writes == 0 and is_conc(a.get([z3.Int("fd!i"), z3.Int("fd!j")])) and _num(a.get([z3.Int("fd!i"), z3.Int("fd!j")])) == 0):
+            raise Unsupported("fill_diagonal with singular values into a non-zero array")
+        it.ctx.on_array_write(a.rootarr(), "fill_diagonal")
+        a.mat = matalg.Mat(it, {((v.lname, False),): 1}, list(a.shape))
+        return None
     V = as_arr(it, v) if not is_scalar(v) else None
     if V is None:
         a.write(lambda idx: cmp("==", idx[0], idx[1]), lambda idx: v, it.ctx, "fill_diagonal")
@@ -1840,3 +1854,30 @@ def extreme_chain_instances(it, terms):
                 cur = et.snap(list(idx))
                 pos += r
     return out
+
+
+# ----------------------------------------------------------------------------- linear algebra (matrix-algebra encoding, aovc/matalg.py)
+@ext("numpy.linalg.pinv")
+def _pinv(it, a, rcond=None, **kw):
+    from . import matalg
+    return matalg.pinv(it, a, rcond)
+
+
+@ext("scipy.linalg.cho_factor")
+def _cho_factor(it, a, **kw):
+    from . import matalg
+    return matalg.cho_factor(it, a)
+
+
+@ext("scipy.linalg.cho_solve")
+def _cho_solve(it, cf, b, **kw):
+    from . import matalg
+    return matalg.cho_solve(it, cf, b)
+
+
+@ext("numpy.linalg.svd")
+def _svd(it, a, **kw):
+    from . import matalg
+    if kw:
+        raise Unsupported("svd options")
+    return matalg.svd(it, a)
